@@ -83,6 +83,12 @@ def valetOps (max : Nat) (cve : Bool) : Valet → List Nat → List String → O
     match op.toList with
     | ['s'] => valetOps max cve v.serviceAll cas ops
     | ['t'] => valetOps max cve v.serviceStewards cas ops
+    | 'z' :: d => match (String.ofList d).toNat? with
+      | some ca => valetOps max cve (v.stall ca true) cas ops
+      | none => none
+    | 'u' :: d => match (String.ofList d).toNat? with
+      | some ca => valetOps max cve (v.stall ca false) cas ops
+      | none => none
     | 'k' :: d => match (String.ofList d).toNat? with
       | some ca => valetOps max cve (v.connect ca max cve) (if cas.contains ca then cas else cas ++ [ca]) ops
       | none => none
